@@ -14,6 +14,8 @@
  *   G <path>                    dbus_connection_get_object_path_data
  *   C <path>                    method call com.example.T.M to <path>
  *   c <path>                    method call M without INTERFACE to <path>
+ *   X <path>                    the call of C, repeated with the k-th allocation after the start of its dispatch failing
+ *                               (k = 0,1,... until the fault no longer fires): the caller must get the same answer
  *   D <path>                    method call com.example.T.Destroy to <path>: the handler that takes it unregisters its own
  *                               registration from inside the handler, then replies (prints two result objects)
  *   P <path>                    org.freedesktop.DBus.Peer.Ping to <path>
@@ -22,6 +24,7 @@
  */
 #include "hcommon.h"
 #include <test/test-utils.h>
+#include <dbus/dbus-internals.h>
 
 typedef struct { int id; int declines; char *path; } Handler;
 
@@ -65,11 +68,32 @@ h_message (DBusConnection *c, DBusMessage *m, void *data)
       free (own);
     }
   reply = dbus_message_new_method_return (m);
-  if (reply == NULL) exit (3);
-  if (!dbus_message_append_args (reply, DBUS_TYPE_UINT32, &id, DBUS_TYPE_INVALID)) exit (3);
-  if (!dbus_connection_send (c, reply, NULL)) exit (3);
+  if (reply == NULL) return DBUS_HANDLER_RESULT_NEED_MEMORY;
+  if (!dbus_message_append_args (reply, DBUS_TYPE_UINT32, &id, DBUS_TYPE_INVALID) || !dbus_connection_send (c, reply, NULL))
+    {
+      dbus_message_unref (reply);
+      return DBUS_HANDLER_RESULT_NEED_MEMORY;
+    }
   dbus_message_unref (reply);
   return DBUS_HANDLER_RESULT_HANDLED;
+}
+
+/* 'X' op: the injector is armed from inside a filter of the server-side connection, i.e. at the start of the dispatch
+ * of the incoming call, so that the failing allocation lies in the object-tree dispatch and in the building of the
+ * automatic error reply (application code arms it, the library code after it runs under the fault) */
+static int arm_k = -1;
+static int arm_fired;
+
+static DBusHandlerResult
+arm_filter (DBusConnection *c, DBusMessage *m, void *data)
+{
+  if (arm_k >= 0 && dbus_message_get_type (m) == DBUS_MESSAGE_TYPE_METHOD_CALL)
+    {
+      _dbus_set_fail_alloc_failures (1);
+      _dbus_set_fail_alloc_counter (arm_k);
+      arm_k = -2;     /* armed once per call: a re-dispatch after NEED_MEMORY runs without fault */
+    }
+  return DBUS_HANDLER_RESULT_NOT_YET_HANDLED;
 }
 
 static const DBusObjectPathVTable vtable = { h_unregister, h_message, NULL, NULL, NULL, NULL };
@@ -102,7 +126,7 @@ do_call (DBusConnection *cc, const char *path, const char *iface, const char *me
   m = dbus_message_new_method_call (NULL, path, iface, member);
   if (m == NULL) exit (3);
   n_inv = 0;
-  if (!dbus_connection_send_with_reply (cc, m, &pc, 600000) || pc == NULL)
+  if (!dbus_connection_send_with_reply (cc, m, &pc, kind == 'X' ? 1500 : 600000) || pc == NULL)
     {
       printf ("{\"op\":\"call\",\"sent\":0}");
       dbus_message_unref (m);
@@ -246,6 +270,30 @@ int main (void)
               putchar ('}');
               break;
             case 'c': do_call (cc, p, NULL, "M", 'c'); break;
+            case 'X':
+              {
+                /* the same call once without fault and then with the k-th allocation after the start of its dispatch
+                 * failing, k = 0,1,2,... until the fault no longer fires; every reply is printed */
+                int k, fired = 1;
+                if (!dbus_connection_add_filter (server_conn, arm_filter, NULL, NULL)) exit (3);
+                fputs ("{\"op\":\"oomcall\",\"runs\":[", stdout);
+                arm_k = -1;
+                do_call (cc, p, "com.example.T", "M", 'X');
+                for (k = 0; k < 200 && fired; k++)
+                  {
+                    int c;
+                    putchar (',');
+                    arm_k = k;
+                    do_call (cc, p, "com.example.T", "M", 'X');
+                    c = _dbus_get_fail_alloc_counter ();
+                    fired = (arm_k == -2 && c > k);
+                    _dbus_set_fail_alloc_counter (_DBUS_INT_MAX);
+                    arm_k = -1;
+                  }
+                printf ("],\"n\":%d}", k);
+                dbus_connection_remove_filter (server_conn, arm_filter, NULL);
+                break;
+              }
             case 'P': do_call (cc, p, "org.freedesktop.DBus.Peer", "Ping", 'P'); break;
             case 'I': do_call (cc, p, "org.freedesktop.DBus.Introspectable", "Introspect", 'I'); break;
             default: printf ("{\"op\":\"bad\"}");
